@@ -112,6 +112,15 @@ def perturb(rng, desc, rtol, atol):
         n, m = len(d["alternatives"]), len(d["criteria"])
         what = rng.choice(["weights", "matrix", "objectives", "alternatives", "criteria", "shape_rows", "shape_cols",
                            "dtypes", "dtypes"])
+        if what == "dtypes" and rng.random() < 0.3 and all(float(x).is_integer() for r in d["matrix"] for x in r):
+            # whole numbers held as integers against the same data measured with decimals, held as floats
+            # (two members differ: the values and the storage types)
+            desc["dtypes"][:] = [0] * m
+            d["dtypes"] = [1] * m
+            for _ in range(rng.randint(1, 3)):
+                i, j = rng.randrange(n), rng.randrange(m)
+                d["matrix"][i][j] = d["matrix"][i][j] + rng.choice([0.5, 0.75, 0.25])
+            return d, "two:matrix+dtypes"
         if what == "dtypes":
             # the same values held in the other dtype (only possible for an integer-valued criterion)
             ok = [j for j in range(m) if all(float(r[j]).is_integer() for r in d["matrix"])]
